@@ -277,6 +277,12 @@ impl<R: Read + Seek> ReadBox<&mut R> for HvcCBox {
         for _ in 0..num_of_arrays {
             let params = reader.read_u8()?;
             let num_nalus = reader.read_u16::<BigEndian>()?;
+            // every nal unit takes at least the two bytes of its length field
+            if u64::from(num_nalus) * 2 > end.saturating_sub(reader.stream_position()?) {
+                return Err(Error::InvalidData(
+                    "hvcc array indicates more nal units than could fit in the box",
+                ));
+            }
             let mut nalus = Vec::with_capacity(num_nalus as usize);
 
             for _ in 0..num_nalus {
